@@ -30,3 +30,7 @@ mod polynomial;
 mod prng;
 pub mod topology;
 pub mod vdaf;
+
+/// Hooks for the external verification machinery; compiled only with the `verif-hooks` feature.
+#[cfg(feature = "verif-hooks")]
+pub mod verif_hooks;
